@@ -12,7 +12,7 @@
    input at any time (nothing invented, reordered or duplicated), and if the driver finished
    the items sent are exactly [ref items] and the downstream was finalized. *)
 From Coq Require Import List NArith Bool.
-From HV Require Import Push.Model Push.PBase Push.POne Push.PTwo Push.PFlatMap Push.PMore Push.PTwoOnce Push.PDemux Push.Run Push.Model2 Push.PCompose Push.PCompose2.
+From HV Require Import Push.Model Push.PBase Push.POne Push.PTwo Push.PFlatMap Push.PMore Push.PTwoOnce Push.PDemux Push.Run Push.Model2 Push.PCompose Push.PCompose2 Push.PCompose3.
 Import ListNotations.
 
 Theorem C12_map : forall A B (f : A -> B) fuel items rs0 fs0,
@@ -235,6 +235,26 @@ Theorem C12_stage_unzip : forall A B (p0 : push A) Inv0 (p1 : push B) Inv1,
     respects (unzip_push p0 p1) (@TwoInv _ _ _ (fun c : A * B => c) p0 Inv0 p1 Inv1).
 Proof. exact (@unzip_stage). Qed.
 Print Assumptions C12_stage_unzip.
+
+(* inspect.rs: the closure saw exactly the accepted items, in order *)
+Theorem C12_stage_inspect : forall A (p : push A) Inv,
+    respects p Inv -> respects (inspect_push p) (@InspInv _ p Inv).
+Proof. exact (@inspect_respects). Qed.
+Print Assumptions C12_stage_inspect.
+
+(* demux_var.rs over n copies of ANY protocol-respecting downstream.  Items must address an
+   existing downstream ([in_range n]; otherwise the code panics).  [DL k ph fl l] gives every
+   downstream number k+i its own invariant at the reference [demux_ref (k+i) items]. *)
+Theorem C12_stage_demux : forall A (nx : push A) Inv, respects nx Inv ->
+    forall n fuel items (l0 : list (St nx)),
+      length l0 = n -> DL nx Inv 0 (Run [] false) [] l0 -> Forall (in_range n) items ->
+      match drive (demux_push nx) fuel items ([], l0) [] with
+      | (Finished, _, s') => DInv nx Inv n (Fini items) s'
+      | (OutOfFuel, _, s') => exists ph rest, DInv nx Inv n ph s' /\ ph_items ph ++ rest = items /\ (forall ys, ph <> Fini ys)
+      | (Panicked, _, _) => False
+      end.
+Proof. intros A nx Inv H. exact (demux_stage_drive H). Qed.
+Print Assumptions C12_stage_demux.
 
 (* for_each.rs (and vec_push.rs, same shape): terminal base case *)
 Theorem C12_stage_for_each : forall A, respects (for_each_push A) (@FEInv A).
